@@ -6,12 +6,15 @@ import Frp.Gen.AuthGateFacts
 
   All statements are about `Frp.AuthGate` (the model of handleConnection / RegisterControl /
   RegisterWorkConn / handlePing as the code is now) and hold for EVERY plugin behaviour `P`, every
-  `Prim` (`H` = util.GetAuthKey, `oidcVerify` = go-oidc Verify: nothing assumed about either), every
+  `Prim` (`H` = util.GetAuthKey; `jwtClaims` / `jwtSigOk` = go-oidc's JWT parsing and signature check; `now`:
+  nothing assumed about any of them), every
   configuration, every server state and every message.  `fx` is the repair switch
   (`workVerifierIsFixed`, `false` = code as it is); theorems quantified over `fx` hold for both.
 
-  "accepted key" means exactly: token method `key = H token ts`; OIDC `oidcVerify key = some sub`
-  (login) / `… ∧ sub ∈ subjectsFromLogin` (ping, work connection).  No cryptographic claim.
+  "accepted key" means exactly: token method `key = H token ts`; OIDC `oidcVerify pr cfg.oidc key = some sub`
+  (login) / `… ∧ sub ∈ subjectsFromLogin` (ping, work connection), where `oidcVerify` is the claim-level
+  decision of go-oidc under the configuration `auth.NewTokenVerifier` builds (§8: `TokenValid`).  No
+  cryptographic claim: "signed by a key the provider publishes" is the abstract `jwtSigOk`.
 -/
 namespace Frp
 namespace C04
@@ -72,13 +75,13 @@ theorem login_token_network {m : Login} {rid : RunId} (hm : cfg.method = .token)
 /-- OIDC method, network listener: success ⇒ go-oidc accepted the key, and its subject is recorded -/
 theorem login_oidc_network {m : Login} {rid : RunId} (hm : cfg.method = .oidc)
     (h : (handleFirstG fx P pr cfg srv false conn (.login m)).2.reply = .loginOk rid) :
-    ∃ m' sub, P.login m = some m' ∧ pr.oidcVerify m'.key = some sub ∧
+    ∃ m' sub, P.login m = some m' ∧ oidcVerify pr cfg.oidc m'.key = some sub ∧
       sub ∈ (handleFirstG fx P pr cfg srv false conn (.login m)).1.subjects := by
   obtain ⟨m', hp, _, hv⟩ := login_needs_key h
   have hk : verifierFor false m' = .cfg := rfl
   rw [hk] at hv
   simp only [verifyLogin, hm] at hv
-  cases ho : pr.oidcVerify m'.key with
+  cases ho : oidcVerify pr cfg.oidc m'.key with
   | none => simp [ho] at hv
   | some sub =>
     refine ⟨m', sub, hp, ho, ?_⟩
@@ -133,14 +136,50 @@ def NoInternalLogin : Ev → Prop
   | .first true _ (.login _) => False
   | _ => True
 
-theorem step_allCfg {e : Ev} (he : NoInternalLogin e) (h : AllCfg srv) :
-    AllCfg (stepG fx P pr cfg srv e).1 := by
+/-- events that cannot select the always-pass verifier: everything except a login on the internal
+    listener that carries the flag when the plugins hand it on -/
+def NoBypassLogin (P : Plugins) : Ev → Prop
+  | .first true _ (.login m) => ∀ m', P.login m = some m' → m'.aap = false
+  | _ => True
+
+theorem noBypass_of_noInternal {e : Ev} (he : NoInternalLogin e) : NoBypassLogin P e := by
   cases e with
   | first i c m =>
     cases m with
     | login m =>
       cases i with
       | true => exact absurd he (by simp [NoInternalLogin])
+      | false => trivial
+    | work m => cases i <;> trivial
+    | visitor r v => cases i <;> trivial
+    | other => cases i <;> trivial
+    | garbage => cases i <;> trivial
+  | ping c m => trivial
+  | newProxy c n => trivial
+  | drop c => trivial
+
+theorem step_allCfg {e : Ev} (he : NoBypassLogin P e) (h : AllCfg srv) :
+    AllCfg (stepG fx P pr cfg srv e).1 := by
+  cases e with
+  | first i c m =>
+    cases m with
+    | login m =>
+      cases i with
+      | true =>
+        simp only [stepG, handleFirstG]
+        cases hp : P.login m with
+        | none => exact h
+        | some m' =>
+          have ha : m'.aap = false := he m' hp
+          simp only [registerControl]
+          cases verifyLogin pr cfg srv.subjects (verifierFor true m') m' with
+          | none => exact h
+          | some sj =>
+            intro s hs
+            simp only [List.mem_append, List.mem_filter, List.mem_singleton] at hs
+            rcases hs with hs | hs
+            · exact h s hs.1
+            · subst hs; simp [verifierFor, ha]
       | false =>
         simp only [stepG, handleFirstG]
         cases P.login m with
@@ -202,7 +241,8 @@ theorem network_never_alwaysPass (evs : List Ev) (hn : ∀ e ∈ evs, NoInternal
   | nil => exact h
   | cons e rest ih =>
     simp only [runG, List.foldl_cons]
-    exact ih (fun x hx => hn x (List.mem_cons_of_mem _ hx)) (step_allCfg (hn e List.mem_cons_self) h)
+    exact ih (fun x hx => hn x (List.mem_cons_of_mem _ hx))
+      (step_allCfg (noBypass_of_noInternal (hn e List.mem_cons_self)) h)
 
 /-! ## 2. Heartbeats -/
 
@@ -347,7 +387,7 @@ theorem workconn_scope_no_gateway {m : WorkConn} (hall : AllCfg srv) (hw : cfg.w
   · rw [hw] at h1; cases h1
   · exact h1
 
-def witPrim : Prim := { H := fun _ _ => [1], oidcVerify := fun _ => none }
+def witPrim : Prim := { H := fun _ _ => [1], jwtClaims := fun _ => none, jwtSigOk := fun _ => false, now := 0 }
 def witCfg : Cfg := { method := .token, hb := false, wc := true, token := [116], maxPool := 5 }
 /-- a session the ssh gateway's virtual client created with `AlwaysAuthPass` (ssh did the authentication) -/
 def witSrv : Srv :=
@@ -532,6 +572,411 @@ theorem proxy_needs_session {name : Str}
   | none => simp [hs] at h
   | some s => exact ⟨s, rfl⟩
 
+/-! ## 5a. OIDC at claim level (pkg/auth/oidc.go NewTokenVerifier + go-oidc Verify)
+
+  `oidcVerify` is no longer an abstract function: it is go-oidc's decision over the claims of the token under
+  the `oidc.Config` that `auth.NewTokenVerifier` builds from `auth.oidc.{issuer, audience, skipExpiryCheck,
+  skipIssuerCheck}`.  Abstract: JWT parsing (`jwtClaims`) and "signed, with a supported algorithm, by a key
+  the provider's JWKS publishes, over exactly this payload" (`jwtSigOk`). -/
+
+/-- what a key must be for the configured OIDC verifier to accept it, `c` = its claims -/
+def TokenValid (pr : Prim) (oc : OidcCfg) (key : Key) (c : Claims) : Prop :=
+  pr.jwtClaims key = some c ∧ pr.jwtSigOk key = true ∧
+  (oc.skipIssuer = true ∨ c.iss = oc.issuer ∨ (oc.issuer = googleIss ∧ c.iss = googleIssNoScheme)) ∧
+  (oc.audience = [] ∨ oc.audience ∈ c.aud) ∧
+  (oc.skipExpiry = true ∨ (¬ c.exp < pr.now ∧ ∀ n, c.nbf = some n → ¬ pr.now + nbfLeeway < n))
+
+theorem timeOk_iff {oc : OidcCfg} {now : Int} {c : Claims} :
+    timeOk oc now c = true ↔
+      (oc.skipExpiry = true ∨ (¬ c.exp < now ∧ ∀ n, c.nbf = some n → ¬ now + nbfLeeway < n)) := by
+  unfold timeOk
+  cases hn : c.nbf with
+  | none => simp
+  | some n => simp
+
+/-- the verifier accepts a key with subject `sub` iff the key is a valid token whose `sub` claim is `sub` -/
+theorem oidcVerify_iff {oc : OidcCfg} {key : Key} {sub : Subject} :
+    oidcVerify pr oc key = some sub ↔ ∃ c, TokenValid pr oc key c ∧ c.sub = sub := by
+  unfold oidcVerify TokenValid
+  cases hc : pr.jwtClaims key with
+  | none => simp
+  | some c =>
+    simp only [Option.some.injEq]
+    constructor
+    · intro h
+      split at h
+      · rename_i hcond
+        simp only [Bool.and_eq_true] at hcond
+        obtain ⟨⟨⟨hi, ha⟩, ht⟩, hs⟩ := hcond
+        refine ⟨c, ⟨rfl, hs, ?_, ?_, timeOk_iff.mp ht⟩, by simpa using h⟩
+        · simp only [issOk, Bool.or_eq_true, Bool.and_eq_true, decide_eq_true_eq] at hi
+          rcases hi with (hi | hi) | hi
+          · exact Or.inl hi
+          · exact Or.inr (Or.inl hi)
+          · exact Or.inr (Or.inr hi)
+        · simpa [audOk] using ha
+      · cases h
+    · rintro ⟨c', ⟨hc', hs, hi, ha, ht⟩, hsub⟩
+      cases hc'
+      have hcond : (issOk oc c && audOk oc c && timeOk oc pr.now c && pr.jwtSigOk key) = true := by
+        simp only [Bool.and_eq_true]
+        refine ⟨⟨⟨?_, ?_⟩, timeOk_iff.mpr ht⟩, hs⟩
+        · simp only [issOk, Bool.or_eq_true, Bool.and_eq_true, decide_eq_true_eq]
+          rcases hi with hi | hi | hi
+          · exact Or.inl (Or.inl hi)
+          · exact Or.inl (Or.inr hi)
+          · exact Or.inr hi
+        · simpa [audOk] using ha
+      simp [hcond, hsub]
+
+/-- the ordinary configuration (no skip option, an audience configured, a non-Google issuer): a valid token
+    names exactly the configured issuer, lists the configured audience, is not expired and not used before
+    its time (5 min leeway) - "a token the provider issued for this audience" -/
+theorem tokenValid_strict {oc : OidcCfg} {key : Key} {c : Claims} (h : TokenValid pr oc key c)
+    (hi : oc.skipIssuer = false) (he : oc.skipExpiry = false) (ha : oc.audience ≠ []) (hg : oc.issuer ≠ googleIss) :
+    pr.jwtSigOk key = true ∧ c.iss = oc.issuer ∧ oc.audience ∈ c.aud ∧ ¬ c.exp < pr.now ∧
+      ∀ n, c.nbf = some n → ¬ pr.now + nbfLeeway < n := by
+  obtain ⟨_, hs, h1, h2, h3⟩ := h
+  refine ⟨hs, ?_, ?_, ?_⟩
+  · rcases h1 with h1 | h1 | h1
+    · rw [hi] at h1; cases h1
+    · exact h1
+    · exact absurd h1.1 hg
+  · rcases h2 with h2 | h2
+    · exact absurd h2 ha
+    · exact h2
+  · rcases h3 with h3 | h3
+    · rw [he] at h3; cases h3
+    · exact h3
+
+/-- OIDC, network listener: a session is created only for a valid token, and its subject is then among
+    `subjectsFromLogin` -/
+theorem oidc_login_claims {m : Login} {rid : RunId} (hm : cfg.method = .oidc)
+    (h : (handleFirstG fx P pr cfg srv false conn (.login m)).2.reply = .loginOk rid) :
+    ∃ m' c, P.login m = some m' ∧ TokenValid pr cfg.oidc m'.key c ∧
+      c.sub ∈ (handleFirstG fx P pr cfg srv false conn (.login m)).1.subjects := by
+  obtain ⟨m', sub, hp, hv, hs⟩ := login_oidc_network hm h
+  obtain ⟨c, hc, e⟩ := oidcVerify_iff.mp hv
+  exact ⟨m', c, hp, hc, by rw [e]; exact hs⟩
+
+theorem keyOk_oidc {subs : List Subject} {ts : Int} {key : Key} (hm : cfg.method = .oidc)
+    (h : keyOk pr cfg subs ts key = true) : ∃ c, TokenValid pr cfg.oidc key c ∧ c.sub ∈ subs := by
+  simp only [keyOk, hm, oidcPost] at h
+  cases hv : oidcVerify pr cfg.oidc key with
+  | none => simp [hv] at h
+  | some sub =>
+    simp only [hv, decide_eq_true_eq] at h
+    obtain ⟨c, hc, e⟩ := oidcVerify_iff.mp hv
+    exact ⟨c, hc, by rw [e]; exact h⟩
+
+/-- OIDC with the HeartBeats scope, ordinary session: `lastPing` moves only for a valid token whose subject
+    some accepted login put into `subjectsFromLogin` (the list is per SERVER, not per session, and is never
+    shortened: the subject of ANY earlier login is good for a ping on ANY session) -/
+theorem oidc_ping_claims {m : Ping} {s : Session} (hm : cfg.method = .oidc) (hb : cfg.hb = true)
+    (hs : byCtl srv conn = some s) (hk : s.vk = .cfg)
+    (h : (handlePing P pr cfg srv conn m).1 ≠ srv) :
+    ∃ m' c, P.ping m = some m' ∧ TokenValid pr cfg.oidc m'.key c ∧ c.sub ∈ srv.subjects := by
+  obtain ⟨s', m', hs', hp, hor⟩ := ping_moved_needs_key h
+  rw [hs] at hs'
+  cases hs'
+  rcases hor with h1 | h1 | h1
+  · rw [hk] at h1; cases h1
+  · rw [hb] at h1; cases h1
+  · obtain ⟨c, hc, hsub⟩ := keyOk_oidc hm h1
+    exact ⟨m', c, hp, hc, hsub⟩
+
+/-- OIDC with the NewWorkConns scope: a work connection from a network listener is pooled only with a valid
+    token of a logged-in subject (code as it is now, `workVerifierIsFixed`; every state) -/
+theorem oidc_work_claims {m : WorkConn} (hm : cfg.method = .oidc) (hw : cfg.wc = true)
+    (h : (registerWork true P pr cfg srv false conn m).2.closed = false) :
+    ∃ s m' c, lookup srv m.runId = some s ∧ P.work m = some m' ∧ TokenValid pr cfg.oidc m'.key c ∧
+      c.sub ∈ srv.subjects := by
+  obtain ⟨s, m', hl, hp, hk⟩ := workconn_scope_fixed P pr cfg srv conn m hw h
+  obtain ⟨c, hc, hsub⟩ := keyOk_oidc hm hk
+  exact ⟨s, m', c, hl, hp, hc, hsub⟩
+
+/-- `sub` entered `subjectsFromLogin` by this event: a login verified by the configured OIDC verifier -/
+def LoginOf (P : Plugins) (pr : Prim) (cfg : Cfg) (sub : Subject) (e : Ev) : Prop :=
+  ∃ i c m m', e = .first i c (.login m) ∧ P.login m = some m' ∧ verifierFor i m' = .cfg ∧
+    cfg.method = .oidc ∧ oidcVerify pr cfg.oidc m'.key = some sub
+
+theorem verifyLogin_subjects {subs subs' : List Subject} {vk : VKind} {m : Login} {sub : Subject}
+    (h : verifyLogin pr cfg subs vk m = some subs') (hs : sub ∈ subs') :
+    sub ∈ subs ∨ (vk = .cfg ∧ cfg.method = .oidc ∧ oidcVerify pr cfg.oidc m.key = some sub) := by
+  unfold verifyLogin at h
+  cases vk with
+  | alwaysPass => simp only [Option.some.injEq] at h; subst h; exact Or.inl hs
+  | cfg =>
+    cases hm : cfg.method with
+    | token =>
+      simp only [hm] at h
+      split at h
+      · simp only [Option.some.injEq] at h; subst h; exact Or.inl hs
+      · cases h
+    | oidc =>
+      simp only [hm] at h
+      cases hv : oidcVerify pr cfg.oidc m.key with
+      | none => simp [hv] at h
+      | some sb =>
+        simp only [hv, Option.some.injEq] at h
+        subst h
+        split at hs
+        · exact Or.inl hs
+        · simp only [List.mem_append, List.mem_singleton] at hs
+          rcases hs with hs | hs
+          · exact Or.inl hs
+          · subst hs; exact Or.inr ⟨rfl, rfl, rfl⟩
+
+theorem step_subjects {e : Ev} {sub : Subject} (h : sub ∈ (stepG fx P pr cfg srv e).1.subjects) :
+    sub ∈ srv.subjects ∨ LoginOf P pr cfg sub e := by
+  cases e with
+  | first i c m =>
+    cases m with
+    | login m =>
+      simp only [stepG, handleFirstG] at h
+      cases hp : P.login m with
+      | none => simp only [hp] at h; exact Or.inl h
+      | some m' =>
+        simp only [hp, registerControl] at h
+        cases hv : verifyLogin pr cfg srv.subjects (verifierFor i m') m' with
+        | none => simp only [hv] at h; exact Or.inl h
+        | some sj =>
+          simp only [hv] at h
+          rcases verifyLogin_subjects hv h with h1 | ⟨h1, h2, h3⟩
+          · exact Or.inl h1
+          · exact Or.inr ⟨i, c, m, m', rfl, hp, h1, h2, h3⟩
+    | work m =>
+      left
+      simp only [stepG, handleFirstG] at h
+      by_cases hc : (registerWork fx P pr cfg srv i c m).2.closed = true
+      · rw [workconn_refused hc] at h; exact h
+      · obtain ⟨t, _, _, _, _, _, e⟩ := workconn_scope_partial (by simpa using hc)
+        rw [e] at h; exact h
+    | visitor rid ok =>
+      left
+      have : (stepG fx P pr cfg srv (.first i c (.visitor rid ok))).1 = srv := by
+        simp only [stepG, handleFirstG]
+        split
+        · rfl
+        · split <;> rfl
+      rw [this] at h; exact h
+    | other => exact Or.inl h
+    | garbage => exact Or.inl h
+  | ping c m =>
+    left
+    simp only [stepG, handlePing] at h
+    split at h
+    · exact h
+    · split at h
+      · exact h
+      · split at h <;> exact h
+  | newProxy c n =>
+    left
+    simp only [stepG, handleNewProxy] at h
+    split at h
+    · exact h
+    · split at h <;> exact h
+  | drop c => exact Or.inl h
+
+/-- over EVERY history: a subject is in `subjectsFromLogin` only if it was there at the start or some
+    login in the history was verified (by the configured verifier) with a token of that subject - so the
+    subject a ping / work connection must carry is the subject of an accepted login -/
+theorem subjects_only_from_logins (evs : List Ev) {sub : Subject}
+    (h : sub ∈ (runG fx P pr cfg srv evs).subjects) :
+    sub ∈ srv.subjects ∨ ∃ e ∈ evs, LoginOf P pr cfg sub e := by
+  induction evs generalizing srv with
+  | nil => exact Or.inl h
+  | cons e rest ih =>
+    simp only [runG, List.foldl_cons] at h
+    rcases ih h with h1 | ⟨e', he', hl⟩
+    · rcases step_subjects h1 with h2 | h2
+      · exact Or.inl h2
+      · exact Or.inr ⟨e, List.mem_cons_self, h2⟩
+    · exact Or.inr ⟨e', List.mem_cons_of_mem _ he', hl⟩
+
+/-! ## 5b. The ssh tunnel gateway: the only producer of `internal = true` (pkg/ssh, pkg/virtual) -/
+
+theorem akLookup_aux {l : List (PubKey × Str)} {k : PubKey} {acc : Option Str} {u : Str}
+    (h : l.foldl (fun acc e => if e.1 = k then some e.2 else acc) acc = some u) :
+    acc = some u ∨ (k, u) ∈ l := by
+  induction l generalizing acc with
+  | nil => exact Or.inl h
+  | cons e rest ih =>
+    simp only [List.foldl_cons] at h
+    rcases ih h with h1 | h1
+    · by_cases hk : e.1 = k
+      · simp only [hk, if_true, Option.some.injEq] at h1
+        right
+        have : e = (k, u) := by cases e; simp_all
+        rw [this]; exact List.mem_cons_self
+      · simp only [hk, if_false] at h1; exact Or.inl h1
+    · exact Or.inr (List.mem_cons_of_mem _ h1)
+
+/-- the user `loadAuthorizedKeysFromFile` yields for a key stands in the file next to that key -/
+theorem akLookup_mem {l : List (PubKey × Str)} {k : PubKey} {u : Str} (h : akLookup l k = some u) :
+    (k, u) ∈ l := by
+  rcases akLookup_aux h with h1 | h1
+  · cases h1
+  · exact h1
+
+/-- authorizedKeysFile configured: the ssh handshake succeeds only for a client that PROVES possession of
+    the private key of a key that is listed in the file as it is read at that moment -/
+theorem ssh_handshake_needs_key {file : Option (List (PubKey × Str))} {a : SshAuth} {u : Str}
+    (h : sshHandshake true file a = some u) :
+    ∃ k l, a = .pubkey k true ∧ file = some l ∧ (k, u) ∈ l := by
+  cases a with
+  | none => simp [sshHandshake] at h
+  | pubkey k proved =>
+    simp only [sshHandshake, if_true, pubkeyCallback] at h
+    cases file with
+    | none => simp at h
+    | some l =>
+      simp only at h
+      cases hl : akLookup l k with
+      | none => simp [hl] at h
+      | some u' =>
+        simp only [hl] at h
+        cases proved with
+        | false => simp at h
+        | true =>
+          simp only [if_true, Option.some.injEq] at h
+          subst h
+          exact ⟨k, l, rfl, rfl, akLookup_mem hl⟩
+
+/-- a client whose ssh handshake fails reaches nothing: no connection on the internal listener, the server
+    state is literally unchanged (no session, no proxy, no work connection) -/
+theorem gw_refused_unchanged {akSet : Bool} {t : Tunnel} (h : sshHandshake akSet t.file t.auth = none) :
+    gwTunnel fx P pr cfg akSet srv t = (srv, .authFail) := by
+  simp [gwTunnel, h]
+
+/-- authorizedKeysFile configured and the client has no authorized key it can sign for: no session -/
+theorem gw_unauthorized_no_session {t : Tunnel}
+    (h : ¬ ∃ k l u, t.auth = .pubkey k true ∧ t.file = some l ∧ (k, u) ∈ l) :
+    gwTunnel fx P pr cfg true srv t = (srv, .authFail) := by
+  apply gw_refused_unchanged
+  cases hh : sshHandshake true t.file t.auth with
+  | none => rfl
+  | some u =>
+    obtain ⟨k, l, h1, h2, h3⟩ := ssh_handshake_needs_key hh
+    exact absurd ⟨k, l, u, h1, h2, h3⟩ h
+
+/-- a tunnel comes up only if the handshake succeeded, the command parsed and the login of the virtual
+    client was accepted by the verifier RegisterControl selected for it -/
+theorem gw_up_needs {akSet : Bool} {t : Tunnel} {rid : RunId} {name : Str}
+    (h : (gwTunnel fx P pr cfg akSet srv t).2 = .up rid name) :
+    ∃ pu c, sshHandshake akSet t.file t.auth = some pu ∧ t.cmd = some c ∧
+      LoginAccepted P pr cfg srv true (gwLogin pr akSet t c) ∧ name = gwProxyName (gwUser pu c) c.name := by
+  unfold gwTunnel at h
+  cases hh : sshHandshake akSet t.file t.auth with
+  | none => simp [hh] at h
+  | some pu =>
+    cases hc : t.cmd with
+    | none => simp [hh, hc] at h
+    | some c =>
+      simp only [hh, hc] at h
+      cases hr : (handleFirstG fx P pr cfg srv true t.conn (.login (gwLogin pr akSet t c))).2.reply with
+      | loginOk rid' =>
+        simp only [hr] at h
+        obtain ⟨m', hp, _, hv⟩ := login_needs_key hr
+        refine ⟨pu, c, rfl, rfl, ⟨m', hp, hv⟩, ?_⟩
+        split at h
+        · injection h with _ h2
+          exact h2.symm
+        · cases h
+      | none => simp [hr] at h
+      | loginErr => simp [hr] at h
+      | startWorkErr => simp [hr] at h
+      | visitorOk => simp [hr] at h
+      | visitorErr => simp [hr] at h
+      | pongOk => simp [hr] at h
+      | pongErr => simp [hr] at h
+      | proxyOk => simp [hr] at h
+      | proxyErr => simp [hr] at h
+
+/-- authorizedKeysFile NOT configured (ssh lets everybody in): the virtual client does not claim the
+    exemption, so with token auth a tunnel comes up only when the command carried the right `--token` -/
+theorem gw_noauth_needs_token {t : Tunnel} {rid : RunId} {name : Str} (hm : cfg.method = .token)
+    (h : (gwTunnel fx Plugins.id pr cfg false srv t).2 = .up rid name) :
+    ∃ c, t.cmd = some c ∧ pr.H c.token t.ts = pr.H cfg.token t.ts := by
+  obtain ⟨pu, c, _, hc, ⟨m', hp, hv⟩, _⟩ := gw_up_needs h
+  simp only [Plugins.id, Option.some.injEq] at hp
+  subst hp
+  refine ⟨c, hc, ?_⟩
+  have hk : verifierFor true (gwLogin pr false t c) = .cfg := rfl
+  rw [hk] at hv
+  simp only [verifyLogin, hm] at hv
+  by_cases e : pr.H cfg.token (gwLogin pr false t c).ts = (gwLogin pr false t c).key
+  · exact e.symm
+  · simp [e] at hv
+
+/-- nothing that arrives on a network listener is ever handled with `internal = true` -/
+theorem net_never_internal (e : NetEv) (c : ConnId) (m : First) : e.toEv ≠ .first true c m := by
+  cases e <;> simp [NetEv.toEv]
+
+/-- a plugin chain that does not switch the flag on -/
+def PluginNoAap (P : Plugins) : Prop := ∀ m m', P.login m = some m' → m.aap = false → m'.aap = false
+
+theorem id_noAap : PluginNoAap Plugins.id := by
+  intro m m' h ha
+  simp only [Plugins.id, Option.some.injEq] at h
+  subst h; exact ha
+
+/-- this tunnel is entitled to the exemption: authorizedKeysFile configured AND the ssh handshake succeeded
+    (by `ssh_handshake_needs_key`: with a listed key the client proved to own) -/
+def TunnelAuthorized (akSet : Bool) (t : Tunnel) : Prop :=
+  akSet = true ∧ (sshHandshake akSet t.file t.auth).isSome = true
+
+theorem gw_allCfg {akSet : Bool} {t : Tunnel} (hP : PluginNoAap P) (hn : ¬ TunnelAuthorized akSet t)
+    (h : AllCfg srv) : AllCfg (gwTunnel fx P pr cfg akSet srv t).1 := by
+  unfold gwTunnel
+  cases hh : sshHandshake akSet t.file t.auth with
+  | none => exact h
+  | some pu =>
+    have hak : akSet = false := by
+      cases akSet with
+      | false => rfl
+      | true => exact absurd ⟨rfl, by simp [hh]⟩ hn
+    cases hc : t.cmd with
+    | none => exact h
+    | some c =>
+      have h1 : AllCfg (handleFirstG fx P pr cfg srv true t.conn (.login (gwLogin pr akSet t c))).1 :=
+        step_allCfg (fx := fx) (pr := pr) (cfg := cfg) (e := .first true t.conn (.login (gwLogin pr akSet t c)))
+          (fun m' hp => hP _ m' hp (by simp [gwLogin, hak])) h
+      cases hr : (handleFirstG fx P pr cfg srv true t.conn (.login (gwLogin pr akSet t c))).2.reply with
+      | loginOk rid =>
+        simp only [hr]
+        have h2 := step_allCfg (fx := fx) (P := P) (pr := pr) (cfg := cfg)
+          (e := .newProxy t.conn (gwProxyName (gwUser pu c) c.name)) trivial h1
+        cases hr2 : (handleNewProxy (handleFirstG fx P pr cfg srv true t.conn (.login (gwLogin pr akSet t c))).1
+            t.conn (gwProxyName (gwUser pu c) c.name)).2.reply with
+        | proxyOk =>
+          simp only
+          exact step_allCfg (fx := fx) (P := P) (pr := pr) (cfg := cfg)
+            (e := .first true t.wconn (.work { runId := rid, ts := 0, key := [] })) trivial h2
+        | _ =>
+          simp only
+          exact step_allCfg (fx := fx) (P := P) (pr := pr) (cfg := cfg) (e := .drop t.conn) trivial h2
+      | _ => simp only [hr]; exact h1
+
+/-- THE SYSTEM, over every history of network events (any peer, any message, any claimed flag) and ssh
+    tunnels (any client, any authorized_keys content at the time): if no tunnel in the history was
+    entitled to the exemption, no session ever holds the always-pass verifier.  Contrapositive: an
+    always-pass session exists only after an ssh client proved an authorized key. -/
+theorem sys_alwaysPass_only_by_authorized_key {akSet : Bool} (evs : List SysEv) (hP : PluginNoAap P)
+    (hn : ∀ t, SysEv.ssh t ∈ evs → ¬ TunnelAuthorized akSet t) (h : AllCfg srv) :
+    AllCfg (sysRun fx P pr cfg akSet srv evs) := by
+  induction evs generalizing srv with
+  | nil => exact h
+  | cons e rest ih =>
+    simp only [sysRun, List.foldl_cons]
+    apply ih (fun t ht => hn t (List.mem_cons_of_mem _ ht))
+    cases e with
+    | net e =>
+      simp only [sysStep]
+      apply step_allCfg _ h
+      cases e <;> trivial
+    | ssh t => exact gw_allCfg hP (hn t List.mem_cons_self) h
+
 /-! ## 6. The executable predicate the driver evaluates on the implementation's own results -/
 
 /-- what the harness observed of the real frps (all booleans computed by the harness independently of
@@ -543,6 +988,10 @@ inductive Obs
       -- a work connection was pooled; known = run id in the table; sessAp = that session holds always-pass
   | pingMoved (sessAp scope kv : Bool)       -- lastPing of the session changed
   | refused (same : Bool)                    -- the attempt was refused; same = tables after = tables before
+  | sshSession (akSet authorized kv ap : Bool)
+      -- a session appeared for an ssh client of the gateway; akSet = authorizedKeysFile configured; authorized =
+      -- the client proved a key listed in the file at that moment; kv = its command carried the configured
+      -- token; ap = the session holds the always-pass verifier
   deriving DecidableEq, Repr
 
 def holdsOn : Obs → Bool
@@ -550,15 +999,57 @@ def holdsOn : Obs → Bool
   | .pooled known i ap sc kv => known && (!sc || kv || (i && ap))
   | .pingMoved ap sc kv => ap || !sc || kv
   | .refused same => same
+  | .sshSession akSet au kv ap => (if akSet then au else kv) && (!ap || (akSet && au))
 
 def Spec : Obs → Prop
   | .sessionCreated i a kv => kv = true ∨ (i = true ∧ a = true)
   | .pooled known i ap sc kv => known = true ∧ (sc = false ∨ kv = true ∨ (i = true ∧ ap = true))
   | .pingMoved ap sc kv => ap = true ∨ sc = false ∨ kv = true
   | .refused same => same = true
+  | .sshSession akSet au kv ap =>
+    ((akSet = true ∧ au = true) ∨ (akSet = false ∧ kv = true)) ∧ (ap = true → akSet = true ∧ au = true)
 
 theorem holdsOn_sound (o : Obs) : holdsOn o = true ↔ Spec o := by
-  cases o <;> simp [holdsOn, Spec] <;> (try (rename_i a b c; cases a <;> cases b <;> cases c <;> simp))
+  cases o with
+  | sshSession a b c d => cases a <;> cases b <;> cases c <;> cases d <;> simp [holdsOn, Spec]
+  | sessionCreated a b c => cases a <;> cases b <;> cases c <;> simp [holdsOn, Spec]
+  | pooled a b c d e => cases a <;> cases b <;> cases c <;> cases d <;> cases e <;> simp [holdsOn, Spec]
+  | pingMoved a b c => cases a <;> cases b <;> cases c <;> simp [holdsOn, Spec]
+  | refused a => simp [holdsOn, Spec]
+
+/-- the model's own successful OIDC login satisfies the predicate with `kv` = the claim-level decision -/
+theorem model_holdsOn_login_oidc {m : Login} {rid : RunId} (hm : cfg.method = .oidc)
+    (h : (handleFirstG fx Plugins.id pr cfg srv internal conn (.login m)).2.reply = .loginOk rid) :
+    holdsOn (.sessionCreated internal m.aap (oidcVerify pr cfg.oidc m.key).isSome) = true := by
+  obtain ⟨m', hp, _, hv⟩ := login_needs_key h
+  simp only [Plugins.id, Option.some.injEq] at hp
+  subst hp
+  simp only [holdsOn, Bool.or_eq_true, Bool.and_eq_true]
+  by_cases hk : verifierFor internal m = .alwaysPass
+  · exact Or.inr ((alwaysPass_iff m).mp hk)
+  · have hk' : verifierFor internal m = .cfg := by
+      cases h' : verifierFor internal m with
+      | cfg => rfl
+      | alwaysPass => exact absurd h' hk
+    rw [hk'] at hv
+    simp only [verifyLogin, hm] at hv
+    cases ho : oidcVerify pr cfg.oidc m.key with
+    | none => simp [ho] at hv
+    | some sub => exact Or.inl rfl
+
+/-- the model's own tunnel that comes up satisfies the ssh predicate (token method, no plugin) -/
+theorem model_holdsOn_ssh {akSet : Bool} {t : Tunnel} {rid : RunId} {name : Str} (hm : cfg.method = .token)
+    (h : (gwTunnel fx Plugins.id pr cfg akSet srv t).2 = .up rid name) :
+    ∃ c, t.cmd = some c ∧
+      holdsOn (.sshSession akSet (sshHandshake akSet t.file t.auth).isSome
+        (decide (pr.H c.token t.ts = pr.H cfg.token t.ts)) akSet) = true := by
+  cases akSet with
+  | true =>
+    obtain ⟨pu, c, hh, hc, _, _⟩ := gw_up_needs h
+    exact ⟨c, hc, by simp [holdsOn, hh]⟩
+  | false =>
+    obtain ⟨c, hc, hk⟩ := gw_noauth_needs_token hm h
+    exact ⟨c, hc, by simp [holdsOn, hk]⟩
 
 /-- the model's own successful token login satisfies the predicate (network or internal) -/
 theorem model_holdsOn_login {m : Login} {rid : RunId} (hm : cfg.method = .token)
@@ -659,9 +1150,45 @@ theorem source_facts :
     putConnFiles.contains "pkg/ssh/server.go" = true := by
   decide
 
+/- the gateway side of the same tie (what `gwTunnel` / `SysEv` assume about the code):
+  * the listener handled with `internal = true` is created in NewService, handed to `ssh.NewGateway` and to
+    `HandleListener(…, true)`, compared with nil and closed - nothing else in server/ gets hold of it;
+  * inside pkg/ssh that listener is only passed on to `NewTunnelServer` and fed by `PutConn(conn)` with the
+    connections of the tunnel's own virtual client (pkg/virtual `pipeConnector.Connect`);
+  * `TunnelServer.Run` performs `ssh.NewServerConn` first and returns on its error before the virtual client
+    exists (no handshake ⇒ nothing reaches frps: `gw_refused_unchanged`);
+  * `PublicKeyCallback` reads authorized_keys anew, answers an error when that fails or the offered key is
+    not in the map, and otherwise the permissions with the user of that key (`pubkeyCallback`). -/
+open Frp.Gen.AuthGateFacts in
+theorem source_facts_gateway :
+    sshListenerRefs =
+      ["declared *netpkg.InternalListener",
+       "ssh.NewGateway(cfg.SSHTunnelGateway, cfg.ProxyBindAddr, svr.sshTunnelListener)",
+       "sshTunnelListener: netpkg.NewInternalListener()", "svr.HandleListener(svr.sshTunnelListener, true)",
+       "svr.sshTunnelListener != nil", "svr.sshTunnelListener.Close()"] ∧
+    gwListenerUses =
+      ["NewTunnelServer(conn, g.sshConfig, g.peerServerListener)", "declared *netpkg.InternalListener",
+       "peerServerListener: peerServerListener", "s.peerServerListener.PutConn(conn)"] ∧
+    gwPutConns =
+      [("pkg/ssh/server.go", "s.peerServerListener.PutConn(conn)"),
+       ("pkg/virtual/client.go", "pc.peerListener.PutConn(c1)")] ∧
+    gwRunCalls =
+      ["after handshake: if err != nil { return err }", "ssh.NewServerConn", "virtual.NewClient",
+       "s.peerServerListener.PutConn"] ∧
+    pubkeyCallbackSrc =
+      [("assign", "authorizedKeysMap, err := loadAuthorizedKeysFromFile(cfg.AuthorizedKeysFile)"),
+       ("return if err != nil", "nil, fmt.Errorf(…)"),
+       ("assign", "user, ok := authorizedKeysMap[string(key.Marshal())]"),
+       ("return if !ok", "nil, fmt.Errorf(…)"),
+       ("return if ", "&ssh.Permissions{ Extensions: map[string]string{ \"user\": user, }, }, nil")] := by
+  decide
+
 /-! ## Non-vacuity -/
 
-def exPrim : Prim := { H := fun tok ts => tok ++ [ts.toNat], oidcVerify := fun k => if k = [] then none else some k }
+def exPrim : Prim :=
+  { H := fun tok ts => tok ++ [ts.toNat],
+    jwtClaims := fun k => if k = [] then none else some { iss := [105], aud := [[97]], sub := k, exp := 100, nbf := none },
+    jwtSigOk := fun k => k.length < 3, now := 50 }
 def exCfg : Cfg := { method := .token, hb := true, wc := true, token := [116], maxPool := 5 }
 def goodLogin : Login := { runId := [], ts := 7, key := [116, 7], aap := false, poolCount := 1, genId := [97] }
 def badLogin : Login := { goodLogin with key := [0], aap := true }
@@ -707,6 +1234,63 @@ example : ∀ a ∈ ([(false, 5, .login badLogin), (false, 6, .work { runId := [
 -- the witness of §3 really pools the connection
 example : (registerWork false Plugins.id witPrim witCfg witSrv false 7 { runId := [114], ts := 0, key := [] }).1.sessions.map (·.pool)
     = [[7]] := by decide
+
+
+-- Google's scheme-less issuer is let through for Google only
+example : oidcVerify { exPrim with jwtClaims := fun _ => some { iss := googleIssNoScheme, aud := [[97]], sub := [7], exp := 100, nbf := none } }
+    { issuer := googleIss, audience := [97] } [7] = some [7] := by decide
+example : googleIss = Str.ofString "https://accounts.google.com" ∧
+    googleIssNoScheme = Str.ofString "accounts.google.com" := by decide +kernel
+-- OIDC, claim level: issuer [105], audience [97], now 50; exPrim's tokens carry iss [105], aud [[97]], exp 100
+def exOidc : Cfg :=
+  { method := .oidc, hb := true, wc := true, token := [], maxPool := 5,
+    oidc := { issuer := [105], audience := [97], skipExpiry := false, skipIssuer := false } }
+example : oidcVerify exPrim exOidc.oidc [7] = some [7] := by decide
+example : TokenValid exPrim exOidc.oidc [7] { iss := [105], aud := [[97]], sub := [7], exp := 100, nbf := none } := by
+  refine ⟨rfl, rfl, Or.inr (Or.inl rfl), Or.inr (by decide), Or.inr ⟨by decide, ?_⟩⟩
+  intro n hn; cases hn
+-- another audience, another issuer, a later `now` (expired), a bad signature: refused
+example : oidcVerify exPrim { exOidc.oidc with audience := [98] } [7] = none := by decide
+example : oidcVerify exPrim { exOidc.oidc with issuer := [106] } [7] = none := by decide
+example : oidcVerify { exPrim with now := 101 } exOidc.oidc [7] = none := by decide
+example : oidcVerify exPrim exOidc.oidc [7, 7, 7] = none := by decide
+-- ... unless the operator switched the check off
+example : oidcVerify exPrim { exOidc.oidc with issuer := [106], skipIssuer := true } [7] = some [7] := by decide
+example : oidcVerify { exPrim with now := 101 } { exOidc.oidc with skipExpiry := true } [7] = some [7] := by decide
+-- login as [7]; a ping with a token of subject [8] is refused, with [7] accepted
+def exOSrv : Srv := (handleFirst Plugins.id exPrim exOidc Srv.empty false 1
+  (.login { runId := [], ts := 0, key := [7], aap := false, poolCount := 0, genId := [97] })).1
+example : exOSrv.subjects = [[7]] := by decide
+example : (handlePing Plugins.id exPrim exOidc exOSrv 1 { ts := 0, key := [8] }).2.reply = .pongErr := by decide
+example : (handlePing Plugins.id exPrim exOidc exOSrv 1 { ts := 0, key := [7] }).2.reply = .pongOk := by decide
+
+-- ssh gateway: authorized_keys lists key [65] twice (the later line, user [122], wins) and [66] without a user
+def exFile : Option (List (PubKey × Str)) := some [([65], [97]), ([66], []), ([65], [122])]
+def exTunnel (a : SshAuth) (tok : Str) : Tunnel :=
+  { auth := a, file := exFile, cmd := some { name := [112], user := [], token := tok }, conn := 9, wconn := 10,
+    ts := 3, genId := [103] }
+example : sshHandshake true exFile (.pubkey [65] true) = some [122] := by decide
+example : sshHandshake true exFile (.pubkey [65] false) = none := by decide
+example : sshHandshake true exFile (.pubkey [67] true) = none := by decide
+example : sshHandshake true exFile .none = none := by decide
+example : sshHandshake true none (.pubkey [65] true) = none := by decide
+-- an authorized client: tunnel up, always-pass session, proxy named user.name, the keyless work connection pooled
+example : (gwTunnel true Plugins.id exPrim exCfg true exSrv (exTunnel (.pubkey [65] true) [])).2
+    = .up [103] [122, 46, 112] := by decide
+example : ((gwTunnel true Plugins.id exPrim exCfg true exSrv (exTunnel (.pubkey [65] true) [])).1.sessions.map
+    (fun s => (s.vk, s.pool, s.proxies))) = [(.cfg, [], []), (.alwaysPass, [10], [[122, 46, 112]])] := by decide
+-- an unknown key: nothing happens
+example : gwTunnel true Plugins.id exPrim exCfg true exSrv (exTunnel (.pubkey [67] true) []) = (exSrv, .authFail) := by
+  decide
+-- no authorized_keys file configured: everybody passes ssh, the token decides; the session is an ordinary one
+-- and (NewWorkConns scope on) the keyless work connection of the virtual client is refused
+example : (gwTunnel true Plugins.id exPrim exCfg false exSrv (exTunnel .none [])).2 = .closed := by decide
+example : (gwTunnel true Plugins.id exPrim exCfg false exSrv (exTunnel .none [116])).2 = .up [103] [112] := by decide
+example : ((gwTunnel true Plugins.id exPrim exCfg false exSrv (exTunnel .none [116])).1.sessions.map
+    (fun s => (s.vk, s.pool))) = [(.cfg, []), (.cfg, [])] := by decide
+example : ¬ TunnelAuthorized false (exTunnel .none [116]) := by intro h; cases h.1
+example : ¬ TunnelAuthorized true (exTunnel (.pubkey [67] true) []) := by
+  intro h; have := h.2; revert this; decide
 
 end C04
 end Frp
